@@ -38,6 +38,8 @@ def header(patch):
             h["property"] = line[len("property:"):].strip()
         elif line.startswith("what:"):
             h["what"] = line[len("what:"):].strip()
+        elif line.startswith("tier:"):
+            h["tier"] = line[len("tier:"):].strip()
     return h
 
 
@@ -81,6 +83,11 @@ def main(argv):
         for pid, p in patches:
             h = header(p)
             name = os.path.relpath(p, os.path.join(VERIF, "mutants"))
+            if h.get("tier", "quick") != "quick":
+                # decided by a non-default build configuration: `MUT_TIER=thorough bin/mutcheck <patch> <ID>`
+                results.append({"mutant": name, "status": "skipped", "why": "%s-tier mutant (this self-test runs the quick tier)" % h["tier"]})
+                print("  %-45s %-12s %s" % (name, "skipped", results[-1]["why"]), flush=True)
+                continue
             t1 = time.time()
             ap = sh(["patch", "-p1", "-s", "--no-backup-if-mismatch", "-i", p], cwd=scratch_repo)
             if ap.returncode != 0:
